@@ -1,6 +1,6 @@
 """C04 — well-formed in, well-formed out: the anchored mechanisms, decided per unit."""
 from mirsym import models_typst as T
-from . import lists, flows
+from . import lists, flows, mathargs
 
 EXPLANATION = (
     "Bounded symbolic execution (MIR->SMT, z3) of the mechanisms the property is anchored in; the oracle 'output re-parses without "
@@ -14,7 +14,8 @@ EXPLANATION = (
     "whitespace, hash, other} with arbitrary producer results: line comment followed by a line break, no double blank, a blank "
     "exactly where both neighbours allow it. (3) optional_paren / convert_expr_with_optional_paren (all 59 expression kinds) / "
     "parenthesize_if_necessary: delimiters appear exactly in the broken layout, matching, nested by tab_spaces; the wrapped expression "
-    "is converted once, in Code/CodeCont mode; no wrapper when breaks are suppressed. Counterexamples are confirmed on a native "
+    "is converted once, in Code/CodeCont mode; no wrapper when breaks are suppressed. (4) convert_args_in_math over child sequences of "
+    "{argument, comma, semicolon, whitespace, comments}: a line comment keeps its line break also before the closing parenthesis. Counterexamples are confirmed on a native "
     "corpus of list constructs with comments (format then re-parse).")
 
 
@@ -27,6 +28,8 @@ def run(S):
     found += lists.explore(S, KL, want=('C04',))
     # flow/paren models are confirmed on the same corpus
     lists.report(S, 'C04', found)
+    fm = mathargs.explore(S, 3 if S.tier == 'quick' else 4, want=('C04',))
+    mathargs.report(S, 'C04', fm)
     allw = set()
     for o in S.obls:
         allw |= set(o.witnesses)
